@@ -35,7 +35,7 @@ theorem primsOK_svGrow (P : Params) (h : Nat) : PrimsOK P h svGrow where
   subBal a t v _ := subBal_step_of P a t v (Step.guarded (fun _ _ hx => hx)) (Step.guarded (fun _ _ hx => hx))
   insertRate _ _ := Step.guarded (fun _ _ hx => hx)
   insertHistBatch _ := Step.guarded (fun _ _ hx => hx)
-  insertHistTx _ := Step.guarded (fun _ _ hx => hx)
+  insertHistTx _ _ := Step.guarded (fun _ _ hx => hx)
   insertLookup _ := Step.guarded (fun s x hx => by split <;> exact hx)
   setExecuted _ _ := Step.guarded (fun _ _ hx => hx)
   setConvertedAmount _ _ _ := Step.guarded (fun _ _ hx => hx)
